@@ -163,6 +163,112 @@ func longString(s string) []byte {
 	return b
 }
 
+// lenFieldFrame builds a well-formed request body for a class "fl_<OPCODE>_<field>" and returns the offset of the
+// length (or count) field the class is about; hostileBytes overwrites it with boundary values.
+func lenFieldFrame(class string, v primitive.ProtocolVersion) (op byte, body []byte, off int, short bool, pre string) {
+	pre = "startup"
+	v5 := v == primitive.ProtocolVersion5
+	flagsField := func(f byte) []byte {
+		if v5 {
+			return []byte{0, 0, 0, f}
+		}
+		return []byte{f}
+	}
+	value := []byte{0, 0, 0, 4, 0, 0, 0, 7}
+	id := append([]byte{0, 16}, []byte("0123456789abcdef")...)
+	text := longString("INSERT INTO ks.t (k) VALUES (?)")
+	// query parameters: consistency, flags, then the selected optional part; returns the offset of that part
+	params := func(f byte, tail []byte) ([]byte, int) {
+		b := append([]byte{0x00, 0x01}, flagsField(f)...)
+		return append(b, tail...), len(b)
+	}
+	parts := strings.SplitN(class, "_", 3)
+	opname, field := parts[1], parts[2]
+	switch opname {
+	case "QUERY", "EXECUTE":
+		var head []byte
+		if opname == "QUERY" {
+			op, head = 0x07, text
+		} else {
+			op, head = 0x0A, append([]byte{}, id...)
+			if v5 {
+				head = append(head, id...) // result_metadata_id
+			}
+		}
+		switch field {
+		case "text", "id":
+			p, _ := params(0, nil)
+			return op, append(head, p...), 0, field == "id", pre
+		case "nvalues":
+			p, o := params(0x01, append([]byte{0, 1}, value...))
+			return op, append(head, p...), len(head) + o, true, pre
+		case "value":
+			p, o := params(0x01, append([]byte{0, 1}, value...))
+			return op, append(head, p...), len(head) + o + 2, false, pre
+		case "paging":
+			p, o := params(0x08, value)
+			return op, append(head, p...), len(head) + o, false, pre
+		}
+	case "PREPARE":
+		b := append([]byte{}, text...)
+		if v5 {
+			b = append(b, 0, 0, 0, 0)
+		}
+		return 0x09, b, 0, false, pre
+	case "BATCH":
+		b := []byte{0x00, 0x00, 0x02}
+		c0 := len(b)
+		b = append(b, 0x00)
+		b = append(b, text...)
+		nv0 := len(b)
+		b = append(b, 0, 1)
+		b = append(b, value...)
+		c1 := len(b)
+		b = append(b, 0x01)
+		b = append(b, id...)
+		b = append(b, 0, 1)
+		b = append(b, value...)
+		b = append(b, 0x00, 0x01)
+		b = append(b, flagsField(0)...)
+		switch field {
+		case "count":
+			return 0x0D, b, 1, true, pre
+		case "text":
+			return 0x0D, b, c0 + 1, false, pre
+		case "nvalues":
+			return 0x0D, b, nv0, true, pre
+		case "value":
+			return 0x0D, b, nv0 + 2, false, pre
+		case "id":
+			return 0x0D, b, c1 + 1, true, pre
+		case "value2":
+			return 0x0D, b, c1 + 1 + len(id) + 2, false, pre
+		}
+	case "REGISTER":
+		b := []byte{0x00, 0x01, 0x00, 0x0d}
+		b = append(b, []byte("SCHEMA_CHANGE")...)
+		if field == "count" {
+			return 0x0B, b, 0, true, pre
+		}
+		return 0x0B, b, 2, true, pre
+	case "STARTUP":
+		b := []byte{0x00, 0x01, 0x00, 0x0b}
+		b = append(b, []byte("CQL_VERSION")...)
+		b = append(b, 0x00, 0x05)
+		b = append(b, []byte("3.0.0")...)
+		switch field {
+		case "count":
+			return 0x01, b, 0, true, "none"
+		case "key":
+			return 0x01, b, 2, true, "none"
+		}
+		return 0x01, b, 2 + 2 + 11, true, "none"
+	case "AUTH":
+		return 0x0F, []byte{0, 0, 0, 4, 1, 2, 3, 4}, 0, false, pre
+	}
+	panic("unknown length-field class " + class)
+}
+
 // hostileBytes returns the bytes an offending client sends for a class (after a valid STARTUP unless noted),
 // whether a STARTUP should precede them, and the compression to negotiate.
 // variantCounter makes the choice among the listed variants of a class deterministic and exhaustive: the k-th
@@ -181,6 +287,30 @@ func hostileBytes(class string, rnd *rand.Rand, v primitive.ProtocolVersion) (pr
 		return k % n
 	}
 	queryBody := append(longString("SELECT * FROM ks.t"), 0x00, 0x01, 0x00)
+	if strings.HasPrefix(class, "fl_") {
+		op, body, off, short, pre := lenFieldFrame(class, v)
+		rem := len(body) - off
+		var val int64
+		if short {
+			rem -= 2
+			vals := []int64{0xffff, 0x8000, 0x7fff, int64(rem + 1), 0, int64(rem)}
+			val = vals[pick(len(vals))]
+			binary.BigEndian.PutUint16(body[off:], uint16(val))
+		} else {
+			rem -= 4
+			pos := int64(off + 4)
+			// (a declared length of 2 GiB makes the library's string / bytes readers allocate that much before they
+			// notice the body is short: slow, so only two such values are used)
+			vals := []int64{-1, -2, -3, 0x7fffffff, -0x80000000, -0x7ffffff8, int64(rem + 1), 0x7fffffff - pos + 1, 0x01000000, int64(rem)}
+			val = vals[pick(len(vals))]
+			binary.BigEndian.PutUint32(body[off:], uint32(int32(val)))
+		}
+		flags := byte(0)
+		if v == primitive.ProtocolVersion5 {
+			flags = 0x10 // USE_BETA
+		}
+		return pre, "", rawFrame(ver, flags, 1, op, body, int32(len(body)))
+	}
 	switch class {
 	case "trunc_header":
 		return "startup", "", rawFrame(ver, 0, 1, 0x07, nil, 0)[:1+rnd.Intn(7)]
@@ -475,6 +605,9 @@ func init() {
 					}
 					if strings.HasPrefix(class, "b_") {
 						wait = 1500 * time.Millisecond
+					}
+					if strings.HasPrefix(class, "fl_") {
+						wait = 40 * time.Second // huge declared lengths are answered slowly (see hostileBytes)
 					}
 					obs, detail := observe(nc, wait)
 					nc.Close()
